@@ -187,3 +187,10 @@ Example C06_nonvacuous : wfb nv_tree = true /\ resolvable nv_tree ["all"; "A"] =
   get_nodes nv_tree (Some ox) ["all"] = Ok [["c1"; "A"]; ["c2"; "B"]; ["c2"; "A"]].
 Proof. exact nonvacuous. Qed.
 Print Assumptions C06_nonvacuous.
+
+(* paths inside edges: an EdgeTemplate input mapped to a node variable by path reads the variable that path names *)
+Theorem C06_edge_paths_same_variable : forall (V : Type) (vadd vmul : V -> V -> V) (vzero : V) L row (val : path -> V) es tv,
+  (forall e, In e es -> let '(s, t, w, r) := e in read_slot V vzero L row s = val s /\ read_slot V vzero L row r = val r) ->
+  edge_deriv_impl V vadd vmul vzero L row es tv = edge_deriv_spec V vadd vmul vzero val es tv.
+Proof. exact edge_paths_same_variable. Qed.
+Print Assumptions C06_edge_paths_same_variable.
